@@ -182,7 +182,70 @@ struct Guarded<A: arrayvec::Array<Item = u8>> {
     post: [u8; 32],
 }
 
+/// The intermediate object (`to_to_buffer_ref`) dropped before any view was
+/// taken from it, directly and through `cap_at`: the container must be unchanged.
+fn unused_intermediate(ctx: &mut Ctx, rng: &mut Rng) {
+    use libtw2_buffer::ToBufferRef;
+    let cap = rng.usize_below(65);
+    let pre_len = rng.usize_below(cap + 1);
+    let pre: Vec<u8> = (0..pre_len).map(|i| 0x90 ^ i as u8).collect();
+    let case = json!({"unused_intermediate": true, "capacity": cap, "pre_len": pre_len});
+    let r = catch(|| -> Result<(), Flaw> {
+        // Vec
+        let mut v: Vec<u8> = Vec::with_capacity(cap);
+        v.extend_from_slice(&pre);
+        drop((&mut v).to_to_buffer_ref());
+        drop((&mut v).cap_at(0).to_to_buffer_ref());
+        {
+            // taken, view created but nothing written
+            let mut i = (&mut v).to_to_buffer_ref();
+            let _ = i.to_buffer_ref();
+        }
+        if v[..] != pre[..] {
+            return Err(Flaw("unused-view-changed-container".into(), format!("vec len {} expected {}", v.len(), pre.len())));
+        }
+        // ArrayVec
+        let mut a: ArrayVec<[u8; 64]> = ArrayVec::new();
+        for &x in &pre {
+            a.push(x);
+        }
+        drop((&mut a).to_to_buffer_ref());
+        drop((&mut a).cap_at(0).to_to_buffer_ref());
+        {
+            let mut i = (&mut a).to_to_buffer_ref();
+            let _ = i.to_buffer_ref();
+        }
+        if a[..] != pre[..] {
+            return Err(Flaw("unused-view-changed-container".into(), format!("arrayvec len {} expected {}", a.len(), pre.len())));
+        }
+        // slice reference: an unused view narrows the slice to nothing written = empty
+        let mut backing = pre.clone();
+        {
+            let mut sl: &mut [u8] = &mut backing[..];
+            let sl_ref: &mut &mut [u8] = unsafe { &mut *(&mut sl as *mut &mut [u8]) };
+            drop(sl_ref.to_to_buffer_ref());
+            if !sl.is_empty() {
+                return Err(Flaw("unused-view-changed-container".into(), format!("slice ref has {} bytes after an unused view", sl.len())));
+            }
+        }
+        if backing != pre {
+            return Err(Flaw("unused-view-changed-container".into(), "slice contents changed".into()));
+        }
+        Ok(())
+    });
+    ctx.count("unused_intermediates", 1);
+    match r {
+        Err(p) => ctx.panic_violation("unused intermediate", "drop-without-view", &p, case),
+        Ok(Err(Flaw(what, detail))) => ctx.violation("model", "unused-intermediate", &what, json!({"detail": detail}), case),
+        Ok(Ok(())) => {}
+    }
+    let _ = rng;
+}
+
 fn one(ctx: &mut Ctx, rng: &mut Rng) {
+    if rng.chance(1, 16) {
+        unused_intermediate(ctx, rng);
+    }
     let ops = gen_ops(rng, 0);
     let store = rng.below(6);
     let cap = rng.usize_below(65);
